@@ -28,6 +28,7 @@ def hookOf : String → Except String HookId
 def outcomeOf : String → Except String Outcome
   | "ok" => pure .ok
   | "dbLoad" => pure (.raises .dbLoad) | "parse" => pure (.raises .parse) | "scan" => pure (.raises .scan)
+  | "scanSyntax" => pure (.raises .scanSyntax)
   | "importExec" => pure (.raises .importExec) | "completion" => pure (.raises .completion)
   | "redisplay" => pure (.raises .redisplay)
   | s => throw s!"outcome {s}"
